@@ -285,6 +285,25 @@ class Generator:
                 if pb:
                     rec["pb"] = pb
             return rec
+        if kind == "wcase":
+            if depth > 0 or pooled_only:
+                return None
+            inner = self.g_exprrec(pt, dict(rown=2, shift=2, agg=1), depth=depth + 1)
+            if inner is None:
+                return None
+            if inner["e"] == "rown":
+                thr = rng.choice([1, 2, 3])
+            else:
+                a = inner["a"]
+                try:
+                    tok = X.MCtx(self.m.model, pt.m, self.m.ref_toks, self.m.expr_recs).resolve(a)
+                except (X.OutOfScope, KeyError):
+                    return None
+                thr = self.threshold(pt, tok)
+                if thr is None:
+                    return None
+            self.m.note("window_in_case_condition")
+            return {"e": "wcase", "w": inner, "thr": thr}
         if kind == "case":
             t = rng.choice(ints)
             a = ra(t)
@@ -455,6 +474,11 @@ class Generator:
         else:
             for n, t in rng.sample(vis, min(len(vis), rng.choice([1, 1, 2]))):
                 mp.append((t, self.fresh_name()))
+            if "sqlite" not in self.m.replicas and "" not in m.names() and rng.random() < self.p.get("p_empty_name", 0.0):
+                # the empty string is a legal column name of a polars frame (SQLAlchemy turns an
+                # empty label into an anonymous one, so this is generated on polars-only runs)
+                mp[0] = (mp[0][0], "")
+                self.m.note("rename_to_empty_name")
         final = {t: n for n, t in vis}
         for t, n in mp:
             final[t] = n
@@ -1110,7 +1134,7 @@ class Generator:
         self.m.note("slice_head")
         if pt.m.n_limit:
             self.m.note("limit_after_limit")
-        return {"op": "slice_head", "t": pt.id, "n": self.rng.choice([1, 2, 3, 5, 8, 20]), "offset": self.rng.choice([0, 0, 0, 1, 2, 4])}
+        return {"op": "slice_head", "t": pt.id, "n": self.rng.choice([0, 1, 2, 3, 5, 8, 20]), "offset": self.rng.choice([0, 0, 0, 1, 2, 4])}
 
     def g_group_by(self):
         pt = self.pick_table(lambda p: len(p.m.visible) >= 1)
@@ -1366,8 +1390,9 @@ class Generator:
         cross = False
         if kind == "cross":
             cross = rng.random() < 0.5
-            how = "inner"
-            m.note("join_cross")
+            if cross or rng.random() < 0.5:
+                how = "inner"  # (the cross_join verb has no `how`)
+            m.note("join_cross:" + how)
         elif kind == "name":
             def name_ok(n):
                 a, b = l.m.tok_of_name(n), r.m.tok_of_name(n)
